@@ -1,6 +1,6 @@
 (* C10 property theorems. Nothing but statements closed by `exact lemma` and Print Assumptions, plus Examples. *)
 From Coq Require Import NArith List Bool.
-From OG Require Import C10.Model C10.Proofs C10.Regex C10.RegexProofs C10.RegexSearch.
+From OG Require Import C10.Model C10.Proofs C10.Regex C10.RegexProofs C10.RegexSearch C10.FlushClear.
 Import ListNotations.
 Open Scope N_scope.
 
@@ -139,3 +139,39 @@ Example C10_exact_shapes_exist :
   current_match (RConcat [RBeginText; RLit false [119; 101; 98]]) (Some [119; 101; 98; 45; 49]) = true /\
   all_plain [(1, [119; 101; 98]); (2, [100; 98])].
 Proof. repeat split; try reflexivity; repeat constructor; discriminate. Qed.
+
+(* ---- the mergeset "visible after flush" contract and the key cache, second repair: ClearCache flushes the raw items
+   before it resets the caches (fix2.patch, first hunk) and the lookup stays as today (cache, then FLUSHED items only).
+   For every sequence of insert / flush / cache clear / close-reopen: ---- *)
+Theorem C10_flushclear_id_functional : forall n os s id1 id2,
+  let i := fst (run_fc (empty_index n) os) in In (s, id1) (store i) -> In (s, id2) (store i) -> id1 = id2.
+Proof. exact fc_id_functional. Qed.
+Theorem C10_flushclear_id_injective : forall n os s1 s2 id,
+  let i := fst (run_fc (empty_index n) os) in In (s1, id) (store i) -> In (s2, id) (store i) -> s1 = s2.
+Proof. exact fc_id_injective. Qed.
+Theorem C10_flushclear_id_stable : forall n os1 s os2,
+  let i1 := fst (run_fc (empty_index n) os1) in
+  let r := insert slow_current i1 s in
+  let i3 := fst (run_fc (fst r) os2) in
+  snd (insert slow_current i3 s) = snd r.
+Proof. exact fc_id_stable. Qed.
+(* today's lookup is complete under that repair: every stored key is found through the cache or the flushed items *)
+Theorem C10_flushclear_lookup_complete : forall n os s id,
+  let i := fst (run_fc (empty_index n) os) in In (s, id) (store i) -> lookup slow_current i s = Some id.
+Proof. exact fc_lookup_complete. Qed.
+(* both repairs hand out the same ids on every operation sequence *)
+Theorem C10_flushclear_same_ids_as_pending_lookup : forall n os,
+  snd (run_fc (empty_index n) os) = snd (run slow_repaired (empty_index n) os).
+Proof. intros n os. apply fc_outputs_equal; [apply wf_fc_empty | repeat split]. Qed.
+Print Assumptions C10_flushclear_id_functional.
+Print Assumptions C10_flushclear_id_injective.
+Print Assumptions C10_flushclear_id_stable.
+Print Assumptions C10_flushclear_lookup_complete.
+Print Assumptions C10_flushclear_same_ids_as_pending_lookup.
+
+Example C10_flushclear_example :
+  let s := mkS 1 [(1, 1)] in
+  snd (run_fc (empty_index 0) [Insert s; ClearCache; Insert s; Reopen 5; ClearCache; Insert s]) =
+    [Some 1; None; Some 1; None; None; Some 1] /\
+  snd (run slow_current (empty_index 0) [Insert s; ClearCache; Insert s]) = [Some 1; None; Some 2].
+Proof. vm_compute. split; reflexivity. Qed.
